@@ -8,7 +8,7 @@
 From Coq Require Import List Bool Lia ZifyBool ZifyN NArith Permutation.
 From TS Require Import Model.Str Model.Outcome Model.Unicode Model.Types Model.Parse Model.Rename Model.TopsortAlgo Model.Topsort
                        Model.Lang.Common Model.Lang.Decl Model.Lang.TypeScript.
-From TS Require Import Spec.C10Spec Proofs.BackCommon Proofs.C10Lex.
+From TS Require Import Spec.C10Spec Proofs.BackCommon Proofs.C10Lex Proofs.C15_Replace.
 Import ListNotations.
 Local Open Scope N_scope.
 Local Notation length := List.length (only parsing).
@@ -83,10 +83,17 @@ Proof.
     eapply tr_app; [|apply IH; [discriminate|exact Hr]]. intros st. reflexivity.
 Qed.
 
+(* a safe doc line contains no comment terminator: typescript.rs write_comments escapes nothing in it *)
+Lemma ts_escape_doc_ok docs : forallb c10_doc_ok docs = true -> map ts_escape_comment docs = docs.
+Proof.
+  intros H. apply map_id_on. intros d Hd. apply ts_escape_comment_id.
+  rewrite forallb_forall in H. pose proof (doc_nss d (H d Hd)) as Hn. unfold nss in Hn. now apply negb_true_iff in Hn.
+Qed.
 Lemma ts_comments_bal indent docs : forallb c10_doc_ok docs = true -> bal c10_lex_ts (ts_comments indent docs).
 Proof.
-  intros H. pose proof (tabs_bal indent) as Ht. pose proof (tabs_block indent) as Htb.
-  destruct docs as [|c [|c2 r]]; cbn [ts_comments].
+  intros H. unfold ts_comments. rewrite (ts_escape_doc_ok docs H).
+  pose proof (tabs_bal indent) as Ht. pose proof (tabs_block indent) as Htb.
+  destruct docs as [|c [|c2 r]]; cbn [ts_comments_raw].
   - apply tr_nil.
   - cbn [forallb] in H. rewrite andb_true_r in H. pose proof (ts_doc_close c H) as Hc.
     intros st. rewrite (app_assoc c). set (X := c ++ lit " */") in *. walk. reflexivity.
